@@ -128,6 +128,11 @@ CheckValue(i) ==
   IN /\ IF e.value.res = ResOf(pv.ok) THEN TRUE ELSE Report(i, "value-verdict", [spec |-> ResOf(pv.ok), impl |-> e.value.res]) /\ FALSE
      /\ (pv.ok /\ e.value.res = "ok") =>
           IF SameV(pv.v, e.value.tree, TRUE) THEN TRUE ELSE Report(i, "value-tree", [expected |-> pv.v]) /\ FALSE
+     \* the single-value deserializers give the same verdict and value (C13)
+     /\ IF e.vde_toml.res = ResOf(pv.ok) THEN TRUE ELSE Report(i, "vde-verdict", [route |-> "toml::de::ValueDeserializer", spec |-> ResOf(pv.ok), impl |-> e.vde_toml.res]) /\ FALSE
+     /\ IF e.vde_edit.res = ResOf(pv.ok) THEN TRUE ELSE Report(i, "vde-verdict", [route |-> "toml_edit::de::ValueDeserializer", spec |-> ResOf(pv.ok), impl |-> e.vde_edit.res]) /\ FALSE
+     /\ (pv.ok /\ e.vde_toml.res = "ok") => IF SameV(pv.v, e.vde_toml.tree, FALSE) THEN TRUE ELSE Report(i, "vde-tree", [route |-> "toml::de::ValueDeserializer"]) /\ FALSE
+     /\ (pv.ok /\ e.vde_edit.res = "ok") => IF SameV(pv.v, e.vde_edit.tree, FALSE) THEN TRUE ELSE Report(i, "vde-tree", [route |-> "toml_edit::de::ValueDeserializer"]) /\ FALSE
      /\ IF e.key.res = ResOf(pk.ok) THEN TRUE ELSE Report(i, "key-verdict", [spec |-> ResOf(pk.ok), impl |-> e.key.res]) /\ FALSE
      /\ (pk.ok /\ e.key.res = "ok") =>
           IF e.key.tree.v = pk.v.s THEN TRUE ELSE Report(i, "key-tree", [expected |-> pk.v.s]) /\ FALSE
